@@ -186,7 +186,16 @@ const EXPRCTX = [
   '@@', 'h(@@)', 'h(a, @@)', '[@@]', '({p: @@})', '({[@@]: 1})', '(@@) ? a : b', 'c ? @@ : b', 'c ? a : @@', '(@@) || a', 'a && (@@)', 'a ?? (@@)',
   '!(@@)', '!@@', 'typeof (@@)', 'typeof @@', '-(@@)', 'void (@@)', 'delete o[@@]', '(@@).length', '(@@)()', 'new (@@)', '`${@@}`', 'h`${@@}`', '[...(@@)]', 'h(...(@@))',
   '(() => @@)()', '(() => (@@))()', '(() => ({p: @@}))()', '((p = @@) => p)()', '(function(p = @@){return p})()', 'new (class { q = @@ })().q', '(class { static q = @@ }).q',
-  'new (class { [@@](){} })', 'class extends (@@) {}', '(@@) ** 2', '(@@)?.q', 'y = @@', '[y] = [@@]', '({y = @@} = o)', '(@@, a)', '(a, @@)', '(@@) in o', '(@@) instanceof X', 'o[@@]', 'o[@@] = a', '(@@).p = a'
+  'new (class { [@@](){} })', 'class extends (@@) {}', '(@@) ** 2', '(@@)?.q', 'y = @@', '[y] = [@@]', '({y = @@} = o)', '(@@, a)', '(a, @@)', '(@@) in o', '(@@) instanceof X', 'o[@@]', 'o[@@] = a', '(@@).p = a',
+  // defaults of binding patterns, wherever a pattern can stand
+  '(() => { let {y = @@} = o; return y })()', '(() => { const [y = @@] = []; return y })()', '(() => { try { throw o } catch ({y = @@}) { return y } })()',
+  '(() => { for (const {y = @@} of [o]) return y })()', '(() => { for (const [y = @@] of [[]]) return y })()', '(({y = @@}) => y)(o)', '(function ({y = @@}) { return y })(o)', '(([y = @@]) => y)([])',
+  '(() => { let {[@@]: y} = o; return y })()', '(({[@@]: y}) => y)(o)', '(() => { for (const y in {[@@]: 1}) return y })()',
+  // logical assignment, exponent assignment, labelled and switch positions inside an expression context
+  'y ||= @@', 'y ??= @@', 'o.p &&= @@', '(() => { lbl: { if (c) break lbl; return @@ } })()', '(() => { switch (a) { case @@: return 1; default: return @@ } })()',
+  // class positions
+  '(class { static [@@] = 1 })', '(class { static { y = @@ } })', 'new (class { constructor(p = @@) { this.p = p } })().p', '(class { static m(p = @@) { return p } }).m()', '({ get [@@]() { return 1 } })', '({ set p(v = @@) {} })', '({ async *m() { yield @@ } })',
+  'o.m?.(@@)', 'o?.[@@]', 'new X(@@)', 'new X(...(@@))', 'import(@@)'
 ]
 const EXPRCTX_ASYNC = ['await (@@)', 'await @@', '(async () => @@)()', '(async () => await (@@))()', '(async (q) => (await q) + (@@))(a)']
 const EXPRCTX_GEN = ['yield (@@)', 'yield @@', 'yield* [@@]']
